@@ -444,9 +444,9 @@ impl HasChildren for XmlAttribute {
             return Err(error::Error::InvalidHierarchy);
         }
 
+        let v = XmlAttributeValue::try_from(value.clone())?;
         value.remove_from_parent();
         value.set_parent_id(Some(self.id()));
-        let v = XmlAttributeValue::try_from(value.clone())?;
         if let Some(id) = id {
             let index = self.child_index(id).unwrap();
             self.values.borrow_mut().insert(index, v.clone());
